@@ -425,7 +425,7 @@ def harness_build(name="ds_driver", features=()):
     dependencies redirected is built into a separate target directory."""
     d = os.path.join(VERIF, "harness", name)
     tdir = os.path.join(BUILD, "target")
-    extra = None
+    extra = dict(CARGO_TARGET_DIR=tdir)      # not the path written in the crate's .cargo/config.toml: BUILD follows VERIF
     if REPO != "/repo":
         h = hashlib.sha1(REPO.encode()).hexdigest()[:8]
         alt = os.path.join(BUILD, "harness_alt_" + h, name)
